@@ -460,8 +460,9 @@ class CHECK(core.Check):
                   "in double or single quotes, every path text, points with integer coordinates of all six kinds "
                   "(C17_roundtrip_*), every finite decimal numeral [-]digits.digits in all ten converters as the exact decimal "
                   "(C17_roundtrip_decimal), every such numeral with an exponent e+k / e-k in all ten converters (C17_roundtrip_exponent), "
-                  "points of all six kinds with decimal coordinates (C17_roundtrip_point_*_decimal). Not proved: binary rounding "
-                  "(CPython's float), the exponent form without a dot (`1e+16`), digit-group underscores. The model is tied to building.py/globaling.py by running all converters on the same "
+                  "and the dot-less form `1e+16` (C17_roundtrip_exponent_nodot), points of all six kinds with decimal coordinates "
+                  "(C17_roundtrip_point_*_decimal). Not proved: binary rounding (CPython's float), digit-group underscores, "
+                  "exponents written without a sign. The model is tied to building.py/globaling.py by running all converters on the same "
                   "texts and by building scripts for each literal context.")
     LEVEL_NOTE = ("Trusted: Lean kernel; propext, Classical.choice, Quot.sound; the hand transcription of the converters, "
                   "regexes and CPython number grammars, validated only by the correspondence runs; CPython's float() "
